@@ -264,8 +264,8 @@ def run(ctx):
         finally:
             strutils.TRUE_STRINGS = saved
     ctx.selftest_internal(exposed, "dropping 'on' from strutils.TRUE_STRINGS does not change bool_from_string")
-    ctx.cov['rule'] = ('25 words (12 documented + near misses) x 4 casings x 5 paddings x strict x 4 defaults; non-string subjects; '
-                       '26 integer literals (canonical, signed, padded, underscored, malformed) x str/int form x bounds at '
+    ctx.cov['rule'] = ('25 words (12 documented + near misses) x 4 casings x 6 paddings (one of 500 blanks) x strict x 4 defaults; non-string subjects; '
+                       '26 integer literals (canonical, signed, padded, underscored, malformed) x str/int/int-subclass form x bounds at '
                        'lo-1/lo/hi/hi+1; string lengths 0..6 x min x max incl. None and 0; hex strings of length 30..34 x 7 '
                        'decorations x corruptions; generate_uuid draws')
     ctx.cov['exhaustive'] = True
